@@ -165,7 +165,9 @@ theorem source_key_find_is_model (lk : Lookup) :
 open MiniconfVerif.Gen MiniconfVerif.Gen.Transcode MiniconfVerif.GenTie MiniconfVerif.PathIter in
 /-- The traversal callbacks of `Transcode for Path<T, S>` and `Transcode for JsonPath<T>` **as translated from node.rs /
 jsonpath.rs** (the closures handed to `traverse_by_key`; `core::fmt::Write` on a bounded buffer is `capWrite`) are the
-model's `Target.cb`: they fail exactly when the model's callback does, and otherwise leave exactly the model's buffer. -/
+model's `Target.cb`: they fail exactly when the model's callback does, and otherwise leave exactly the model's buffer;
+likewise the callback of `Transcode for [T]` (`impl_transcode_slice!`, every integer slot type): the next slot receives the
+index, nothing else changes, it fails exactly when no slot is left or the index does not fit the slot type. -/
 theorem source_transcode_callbacks_are_model (buf : Str) (cap : Nat) (a : CbArg) :
     (∀ sep : Char, match Target.cb (.path sep buf cap) a with
       | some t => (Path.callback sep (buf, cap) a.index a.name a.len).2 = .ok () ∧
@@ -174,8 +176,19 @@ theorem source_transcode_callbacks_are_model (buf : Str) (cap : Nat) (a : CbArg)
     (match Target.cb (.json buf cap) a with
       | some t => (JsonPath.callback (buf, cap) a.index a.name a.len).2 = .ok () ∧
           t = .json (JsonPath.callback (buf, cap) a.index a.name a.len).1.1 cap
-      | none => (JsonPath.callback (buf, cap) a.index a.name a.len).2 = .error ()) :=
-  ⟨fun sep => path_callback_tie sep buf cap a, jsonpath_callback_tie buf cap a⟩
+      | none => (JsonPath.callback (buf, cap) a.index a.name a.len).2 = .error ()) ∧
+    (∀ (slots rest : List Nat) (maxIdx : Nat),
+      match Target.cb (.idx slots (slots.length + rest.length) maxIdx) a with
+      | some t =>
+        ∃ r', rest = r' ++ rest.drop 1 ∧ r'.length = 1 ∧
+          Slice.callback (tryIntoMax maxIdx) (sliceOf slots rest) a.index a.name a.len =
+            (sliceOf (slots ++ [a.index]) (rest.drop 1), .ok ()) ∧
+          t = .idx (slots ++ [a.index]) (slots.length + rest.length) maxIdx
+      | none =>
+        (Slice.callback (tryIntoMax maxIdx) (sliceOf slots rest) a.index a.name a.len).2 = .error () ∧
+        (Slice.callback (tryIntoMax maxIdx) (sliceOf slots rest) a.index a.name a.len).1.1 = slots ++ rest) :=
+  ⟨fun sep => path_callback_tie sep buf cap a, jsonpath_callback_tie buf cap a,
+   fun slots rest maxIdx => slice_callback_tie slots rest maxIdx a⟩
 
 open MiniconfVerif.Gen MiniconfVerif.Gen.Core MiniconfVerif.Gen.Keys MiniconfVerif.GenTie in
 /-- The `Keys` implementations **as translated from key.rs / iter.rs / packed.rs** are the model's key sources: for every
